@@ -1984,7 +1984,7 @@ class FileHashStore(HashStore):
                     hex_digest_calculated = self._computehash(
                         cid_stream, algorithm=checksum_algorithm
                     )
-                if hex_digest_calculated != checksum:
+                if hex_digest_calculated != checksum.lower():
                     err_msg = (
                         f"Checksum_algorithm ({checksum_algorithm}) cannot be found in the "
                         + "default hex digests dict, but is supported. New checksum calculated: "
